@@ -290,6 +290,10 @@ func runC05(r *Run) {
 	}
 	r.R.List("window functions (by role)", wf...)
 
+	if r.Universal {
+		r.universalParamsLive(P, sinks)
+	}
+
 	// --- effect rows for the window check (shared with C03)
 	r.checkEffectTable(P, true)
 }
